@@ -2,7 +2,7 @@
 //! same data and parameters, flat observations compared with those of the built-in backend.
 
 use crate::bk::{build, view, vview, Bk, NAMES};
-use crate::model::{abbr, close, M};
+use crate::model::{abbr, close, has_near_pair, off_centre, M};
 use mc_core::{self as mc, json, PanicInfo};
 use smartcore::algorithm::neighbour::KNNAlgorithmName;
 use smartcore::cluster::dbscan::{DBSCANParameters, DBSCAN};
@@ -467,10 +467,54 @@ fn mask_of(e: usize, dense: &[f64], d: &Data) -> Vec<bool> {
     m
 }
 
-fn same(a: &EOut, b: &EOut, tol: f64, mask: &[bool]) -> bool {
+/// Off-centre data (value family 1 of `vals.rs`): the intercept of a linear model is
+/// `mean(y) - sum_j w_j mean(x_j)`, an extrapolation to the origin that lies `|offset| / spread`
+/// spreads away from the data; a difference of `tol` in the coefficients (which is what "equal up
+/// to rounding / up to the solver's tolerance" grants them) moves it by `tol * sum_j |w_j| max_i |x_ij|`.
+/// The intercept (position 2 + p of the observations of the linear models) is therefore compared
+/// at that scale; coefficients and predictions at the data keep the usual tolerance.
+fn intercept_tolerance(e: usize, dense: &[f64], d: &Data, tol: f64) -> Option<(usize, f64)> {
+    if e > 3 || dense.len() < 3 {
+        return None;
+    }
+    let p = (dense[0] * dense[1]) as usize;
+    if p != d.x.c || dense.len() < 3 + p {
+        return None;
+    }
+    let scale: f64 = (0..p).map(|j| dense[2 + j].abs() * d.x.col(j).iter().fold(0.0f64, |m, v| m.max(v.abs()))).sum();
+    Some((2 + p, tol * scale.max(1.0)))
+}
+
+fn same(a: &EOut, b: &EOut, tol: f64, mask: &[bool], extra: Option<(usize, f64)>) -> bool {
     match (a, b) {
-        (EOut::Vals(x), EOut::Vals(y)) => x.len() == y.len() && x.iter().zip(y).enumerate().all(|(i, (p, q))| mask.get(i).copied().unwrap_or(false) || close_tol(*p, *q, tol)),
+        (EOut::Vals(x), EOut::Vals(y)) => x.len() == y.len() && x.iter().zip(y).enumerate().all(|(i, (p, q))| mask.get(i).copied().unwrap_or(false) || close_tol(*p, *q, tol) || matches!(extra, Some((k, t)) if k == i && (p - q).abs() <= t)),
         _ => a.kind() == b.kind(),
+    }
+}
+
+// ------------------------------------------------------------------------------------------------
+// nearly-equal class labels (value family 2 of `vals.rs`): labels are only names
+
+/// Classifiers whose answer must not depend on how the classes are NAMED (as long as the order of
+/// the names is kept): the four naive Bayes, the k-NN classifier, the decision tree classifier.
+const LABEL_NAMING: [usize; 6] = [5, 6, 7, 8, 9, 11];
+
+/// When all class labels come from the nearly-equal alphabet and two of them are one ulp apart:
+/// the same labels under their order-preserving integer names 0..3.
+fn renamed_labels(e: usize, d: &Data) -> Option<Vec<f64>> {
+    if !LABEL_NAMING.contains(&e) || !has_near_pair(&d.y) {
+        return None;
+    }
+    d.y.iter().map(|v| crate::vals::ne_rank(*v)).collect()
+}
+
+/// Positions of the observation vector that hold predicted class labels.
+fn label_positions(e: usize, d: &Data, len: usize) -> Vec<usize> {
+    if e == 11 {
+        // [q.r, labels of the queries, x.r, labels of the training rows]
+        (1..=d.q.r).chain(d.q.r + 2..len).collect()
+    } else {
+        (len.saturating_sub(d.q.r)..len).collect()
     }
 }
 
@@ -696,6 +740,12 @@ pub fn run_case(job: &str, e: usize, cfg: usize, d: &Data, lx: usize) {
             }
         }
     }
+    // value families: site-key suffixes decided from the failing input
+    let oc = off_centre(&d.x);
+    let family = format!("{}{}", if oc { "-off-centre-data" } else { "" }, if has_near_pair(&d.y) { "-nearly-equal-labels" } else { "" });
+    if oc && outs.iter().all(|o| matches!(o, EOut::Vals(_))) {
+        mc::count("offset_estimator_cases_with_values_from_all_three_backends");
+    }
     let tol = tol_of(e);
     let mask = match &outs[0] {
         EOut::Vals(v) => mask_of(e, v, d),
@@ -704,11 +754,58 @@ pub fn run_case(job: &str, e: usize, cfg: usize, d: &Data, lx: usize) {
     if mask.iter().any(|m| *m) {
         mc::count("logistic_predictions_masked_near_boundary");
     }
+    let extra = match &outs[0] {
+        EOut::Vals(v) if oc => intercept_tolerance(e, v, d, tol),
+        _ => None,
+    };
+    if extra.is_some() {
+        mc::count("offset_linear_model_intercepts_compared_at_their_own_rounding_scale");
+    }
+    // nearly-equal labels are two classes on EVERY backend: the same fit with the classes renamed
+    // 0..3 (same order) must give the same model and the same predictions under the renaming.
+    // Verdict rule as everywhere: a backend is reported when it deviates from this reference AND
+    // the three backends do not agree with each other (a defect they share is only counted).
+    let mut merges = [false; 3];
+    if let Some(names) = renamed_labels(e, d) {
+        let twin = Data { x: d.x.clone(), y: names, q: d.q.clone(), label: d.label.clone() };
+        let agree = (1..3).all(|ix| same(&outs[0], &outs[ix], tol, &mask, extra));
+        // when the three backends agree with each other nothing can be reported: the renamed fit
+        // is then run on the built-in backend only (to count what the three share)
+        for ix in 0..if agree { 1 } else { 3 } {
+            let t = run_ix(ix, e, cfg, &twin, lx);
+            let ok = match (&outs[ix], &t) {
+                (EOut::Vals(a), EOut::Vals(b)) => {
+                    let pos = label_positions(e, d, a.len());
+                    a.len() == b.len() && (0..a.len()).all(|p| if pos.contains(&p) { crate::vals::ne_rank(a[p]) == Some(b[p]) } else { close_tol(a[p], b[p], 1e-8) })
+                }
+                (a, b) => a.kind() == b.kind(),
+            };
+            if ok {
+                mc::count("nearly_equal_label_cases_equal_to_the_renamed_fit");
+                if matches!(t, EOut::Vals(_)) {
+                    mc::count("nearly_equal_label_cases_with_values");
+                }
+            } else if agree {
+                mc::count("nearly_equal_labels_merged_alike_by_all_three_backends_counted_only");
+            } else {
+                merges[ix] = true;
+                mc::violation(
+                    format!("{}.{}:nearly-equal-labels-not-kept-apart", NAMES[ix], name),
+                    format!("{} (configuration {}) on x={} y={:?}{}: {} gives {}; with the classes renamed {:?} (same order) it gives {} - the labels {:?} are different numbers and must be different classes; the other backends: {}", name, cfg, d.x.show(), d.y, if lx > 0 { " (x in transposed layout)" } else { "" }, NAMES[ix], outs[ix].show(), twin.y, t.show(), crate::vals::NE, (0..3).filter(|j| *j != ix).map(|j| format!("{}: {}", NAMES[j], outs[j].show())).collect::<Vec<_>>().join("; ")),
+                );
+            }
+        }
+    }
     for ix in 1..3 {
-        if matches!(outs[ix], EOut::Skipped) || same(&outs[0], &outs[ix], tol, &mask) {
+        // the built-in backend itself was reported for merging nearly-equal labels and this binding
+        // keeps them apart: the difference is the built-in backend's
+        if merges[0] && !merges[ix] {
+            continue;
+        }
+        if matches!(outs[ix], EOut::Skipped) || same(&outs[0], &outs[ix], tol, &mask, extra) {
             // calibration record: deviation of an agreeing binding from the built-in backend
             if let (EOut::Vals(a), EOut::Vals(b)) = (&outs[0], &outs[ix]) {
-                let worst = a.iter().zip(b).enumerate().filter(|(i, _)| !mask.get(*i).copied().unwrap_or(false)).fold(0.0f64, |w, (_, (x, y))| if x != y && x.is_finite() && y.is_finite() { w.max((x - y).abs() / x.abs().max(y.abs()).max(1.0)) } else { w });
+                let worst = a.iter().zip(b).enumerate().filter(|(i, _)| !mask.get(*i).copied().unwrap_or(false) && extra.map(|x| x.0) != Some(*i)).fold(0.0f64, |w, (_, (x, y))| if x != y && x.is_finite() && y.is_finite() { w.max((x - y).abs() / x.abs().max(y.abs()).max(1.0)) } else { w });
                 mc::count(if worst == 0.0 {
                     "binding_equals_dense_bitwise"
                 } else if worst <= 1e-12 {
@@ -729,13 +826,14 @@ pub fn run_case(job: &str, e: usize, cfg: usize, d: &Data, lx: usize) {
             EOut::Skipped => unreachable!(),
         }
         .to_string();
+        class.push_str(&family);
         // induced by the non-standard layout of x? (diagnostic: same case, standard layout)
-        if lx > 0 && !HANG_PRONE.contains(&e) && same(&run_ix(0, e, cfg, d, 0), &run_ix(ix, e, cfg, d, 0), tol, &mask) {
+        if lx > 0 && !HANG_PRONE.contains(&e) && same(&run_ix(0, e, cfg, d, 0), &run_ix(ix, e, cfg, d, 0), tol, &mask, extra) {
             class.push_str("-nonstandard-layout");
         }
         // first observation that differs (long observation vectors are abbreviated in the line)
         let first_diff = match (&outs[0], &outs[ix]) {
-            (EOut::Vals(a), EOut::Vals(b)) if a.len() == b.len() => (0..a.len()).find(|p| !mask.get(*p).copied().unwrap_or(false) && !close_tol(a[*p], b[*p], tol)).map(|p| format!(" [first difference: observation {} of {}: {:?} vs dense {:?}]", p, a.len(), b[p], a[p])).unwrap_or_default(),
+            (EOut::Vals(a), EOut::Vals(b)) if a.len() == b.len() => (0..a.len()).find(|p| !mask.get(*p).copied().unwrap_or(false) && !close_tol(a[*p], b[*p], tol) && !matches!(extra, Some((k, t)) if k == *p && (a[*p] - b[*p]).abs() <= t)).map(|p| format!(" [first difference: observation {} of {}: {:?} vs dense {:?}]", p, a.len(), b[p], a[p])).unwrap_or_default(),
             _ => String::new(),
         };
         mc::violation(
